@@ -38,8 +38,11 @@ def obligations(tier):
         CH("string_operators", H, "strings", t, functions=FF[:2], stubs=[FMT], bounds="=, !=, contains on strings <= 2 chars"),
         CH("dotted_paths", H, "dotted", t, functions=FF[:2], stubs=[FMT], bounds="list of 1-2 dicts and nested dict, depth 2-3, unbounded ints, missing key"),
         CH("conjunction_is_intersection", H, "conjunction", t, functions=FF[:3], stubs=[FMT], bounds="two symbolic filters over two objects, unbounded ints"),
+        CH("optimiser_unusual_values", H, "optimiser_odd", t, mode="E1s", functions=FO, stubs=[FSS],
+           bounds="17 type/id filters whose value is not what the shortcut expects (text given to 'in', numbers, mixed lists, ids without a type part) alone or with one ordinary type/id filter in either order: "
+                  "filesystem (plain and symlinked), memory and a scan give the same objects, and no error other than at filter construction"),
         CH("timestamp_strings_as_instants", H, "timestamps", t, mode="E1s", functions=FF[:2] + FM[:1],
-           bounds="5 instants x every spelling of the filter string x 6 operators x (direct, MemorySource.query)"),
+           bounds="5 instants x every spelling of the filter string x 6 operators x (direct, MemorySource.query), and "in" over 5 lists of timestamp texts / datetimes / other text, on a parsed object and a dictionary-kept one"),
         JOB("timestamp_texts_compared_as_instants", "props.j_time", "job_filter_timestamp_texts", 600, functions=["stix2.datastore.filters.Filter._check_property", "stix2.utils.parse_into_datetime"],
             stubs=["_TIMESTAMP_RE.match answers true (the generated texts are canonical timestamps by construction)"],
             bounds="6 operators x every pair of canonical timestamp texts with %s fraction-digit combinations (symbolic fields and digits), property value and filter value both text" % (
